@@ -65,6 +65,66 @@ var c14classes = []c14class{
 	}, "blocker/sub/f"},
 }
 
+// flag matrix: every planted non-regular object × access mode × extra open flags — a request's flag word never makes a
+// planted object acceptable (each of these requests must be refused, without blocking)
+type c14kind struct {
+	name  string
+	plant func(h, p string)
+}
+
+var c14kinds = []c14kind{
+	{"fifo", func(h, p string) { syscall.Mkfifo(h, 0666) }},
+	{"directory", func(h, p string) { os.Mkdir(h, 0755) }},
+	{"socket", func(h, p string) {
+		if l, err := net.Listen("unix", h); err == nil {
+			l.(*net.UnixListener).SetUnlinkOnClose(false)
+			l.Close()
+		}
+	}},
+	{"symlink-to-regular", func(h, p string) {
+		os.WriteFile(h+".target", []byte("t"), 0644)
+		os.Symlink(filepath.Base(p)+".target", h)
+	}},
+	{"symlink-to-host-file", func(h, p string) { os.Symlink("/probe/burn", h) }},
+	{"dangling-symlink", func(h, p string) { os.Symlink("/w/escape-created-through-link", h) }},
+}
+
+var c14extras = []struct {
+	name string
+	bits int
+}{
+	{"O_NOFOLLOW", unix.O_NOFOLLOW}, {"O_NONBLOCK", unix.O_NONBLOCK}, {"O_DIRECTORY", unix.O_DIRECTORY}, {"O_PATH", unix.O_PATH},
+	{"O_NOFOLLOW|O_NONBLOCK", unix.O_NOFOLLOW | unix.O_NONBLOCK}, {"O_NOFOLLOW|O_DIRECTORY", unix.O_NOFOLLOW | unix.O_DIRECTORY}, {"O_NOFOLLOW|O_PATH", unix.O_NOFOLLOW | unix.O_PATH},
+	{"O_CREAT|O_NOFOLLOW", unix.O_CREAT | unix.O_NOFOLLOW}, {"O_TRUNC|O_NOFOLLOW", unix.O_TRUNC | unix.O_NOFOLLOW}, {"O_NOCTTY|O_SYNC", unix.O_NOCTTY | unix.O_SYNC},
+}
+
+var c14accmodes = []struct {
+	name string
+	bits int
+}{{"O_RDONLY", os.O_RDONLY}, {"O_WRONLY", os.O_WRONLY}, {"O_RDWR", os.O_RDWR}}
+
+// c14all = the batch classes followed by the generated matrix classes
+var c14all, c14matrixStart = func() ([]c14class, int) {
+	all := append([]c14class{}, c14classes...)
+	start := len(all)
+	for _, k := range c14kinds {
+		for _, a := range c14accmodes {
+			for _, e := range c14extras {
+				all = append(all, c14class{name: fmt.Sprintf("%s(%s|%s)", k.name, a.name, e.name), fails: true, flag: a.bits | e.bits, plant: k.plant, sub: "f"})
+			}
+		}
+	}
+	return all, start
+}()
+
+// c14group: classes that block for the same reason share one memo entry
+func c14group(c c14class) string {
+	if i := strings.Index(c.name, "("); i > 0 {
+		return c.name[:i]
+	}
+	return c.name
+}
+
 var c14pool c09env // one environment per worker, reset between batches
 
 func c14initPid() int {
@@ -83,7 +143,7 @@ func init() {
 		}
 		spec := &mc.Spec{
 			Level: "exploration",
-			Rule: "Open: every batch of length 0…maxLen over 20 item classes (new file ± MkdirAll, missing parent, existing regular file read-only / write+truncate / read-write, planted symlink to a regular file / to a host file / dangling with O_CREAT, FIFO read and write, socket, directory, MkdirAll blocked by a planted file) on a real container whose tmpfs is prepared from the host side; plus batches of 253 and 254 successes; " +
+			Rule: "Open: every batch of length 0…maxLen over 20 item classes (new file ± MkdirAll, missing parent, existing regular file read-only / write+truncate / read-write, planted symlink to a regular file / to a host file / dangling with O_CREAT, FIFO read and write, socket, directory, MkdirAll blocked by a planted file) on a real container whose tmpfs is prepared from the host side; plus batches of 253 and 254 successes; plus the flag matrix: every planted non-regular kind (FIFO, directory, socket, three symlink kinds) × access mode × 10 extra flag words (O_NOFOLLOW, O_NONBLOCK, O_DIRECTORY, O_PATH and combinations), each followed by an ordinary item; " +
 				"Symlink: every batch ≤ maxLen over {new, existing path, missing parent}; Delete: file, empty dir, non-empty dir, missing, planted symlink. Oracle: len(results)=len(batch); result k is an error iff item k's class must fail; a returned file k has the (dev, ino) of the object at path k seen from the host, the requested access mode and close-on-exec; the call returns within the horizon; other items and a following Ping are unaffected; nothing planted is followed. " +
 				"non-trivial: the batch mixes successes and failures or contains a planted object; distinct = (batch, per-item outcome)",
 			Bound:       map[string]any{"max_len": maxLen, "classes": len(c14classes)},
@@ -95,7 +155,16 @@ func init() {
 		spec.Init = func() error { devnull(); return nil }
 		spec.Fini = func() { c14pool.drop(); cleanupTmp() }
 		spec.Body = func(x *mc.X) {
-			switch x.Pick("op", "open", "open-many", "symlink", "delete") {
+			switch x.Pick("op", "open", "open-many", "symlink", "delete", "open-flag-matrix") {
+			case "open-flag-matrix":
+				k := x.Choose(len(c14kinds), "planted")
+				a := x.Choose(len(c14accmodes), "access")
+				e := x.Choose(len(c14extras), "extra-flags")
+				if x.Dry() {
+					return
+				}
+				// the planted item is followed by an ordinary new file: a refused item must not affect its neighbour
+				c14open(x, []int{c14matrixStart + (k*len(c14accmodes)+a)*len(c14extras) + e, 0})
 			case "open":
 				n := x.Choose(maxLen+1, "len")
 				var batch []int
@@ -152,11 +221,11 @@ func c14env(x *mc.X) (container.Environment, string, bool) {
 }
 
 // classes already seen to block the call in this worker: every further batch containing one would cost a whole horizon
-var c14blocking = map[string]bool{}
+var c14blocking = map[string]string{} // group → the batch first seen to block (that batch itself is still re-run)
 
 func c14open(x *mc.X, batch []int) {
 	for _, ci := range batch {
-		if c14blocking[c14classes[ci].name] && len(batch) > 1 {
+		if first, ok := c14blocking[c14group(c14all[ci])]; ok && len(batch) > 1 && first != fmt.Sprint(batch) {
 			x.Outcome("skipped:contains-a-class-already-reported-to-block")
 			return
 		}
@@ -168,7 +237,7 @@ func c14open(x *mc.X, batch []int) {
 	var names []string
 	var cmds []container.OpenCmd
 	for k, ci := range batch {
-		cl := c14classes[ci]
+		cl := c14all[ci]
 		names = append(names, cl.name)
 		p := fmt.Sprintf("/w/i%d/%s", k, cl.sub)
 		os.MkdirAll(root+fmt.Sprintf("/w/i%d", k), 0777)
@@ -185,8 +254,10 @@ func c14open(x *mc.X, batch []int) {
 	if !returned {
 		x.Failf("C14/open/blocks/"+strings.Join(names, "+"), "%s did not return within the horizon (blocked on a planted object?)", ctx)
 		for _, ci := range batch {
-			if c14classes[ci].fails {
-				c14blocking[c14classes[ci].name] = true
+			if c14all[ci].fails {
+				if _, ok := c14blocking[c14group(c14all[ci])]; !ok {
+					c14blocking[c14group(c14all[ci])] = fmt.Sprint(batch)
+				}
 			}
 		}
 		c14pool.drop()
@@ -220,10 +291,10 @@ func c14open(x *mc.X, batch []int) {
 	}
 	mixed := false
 	for k, ci := range batch {
-		cl := c14classes[ci]
+		cl := c14all[ci]
 		r := res[k]
 		p := cmds[k].Path
-		if cl.fails != c14classes[batch[0]].fails || cl.plant != nil {
+		if cl.fails != c14all[batch[0]].fails || cl.plant != nil {
 			mixed = true
 		}
 		switch {
